@@ -1,14 +1,22 @@
 #!/bin/bash
-# evalall.sh — evaluate every delivered sub-agent mutant (full check matrix), one at a time, until /tmp/evalout/STOP exists
+# evalall.sh — evaluate every delivered sub-agent mutant, one at a time, until /tmp/evalout/STOP exists.
+# Check set per mutant: its target check, the checks related to it, and every cheap check.
 mkdir -p /tmp/evalout
+CHEAP="C03 C05 C07 C08 C09 C10 C13 C14 C15 C16 C17 C18 C19 C20"
+related() { case "$1" in
+  C01) echo "C01 C02 C04 C11";; C02) echo "C02 C01";; C03) echo "C03 C04 C01";; C04) echo "C04";; C06) echo "C06";;
+  C09) echo "C09 C02";; C10) echo "C10 C01";; C11) echo "C11 C01";; C12) echo "C12";; C20) echo "C20 C01";; *) echo "$1";; esac; }
 while [ ! -f /tmp/evalout/STOP ]; do
   did=0
   for d in /tmp/mut/C*/mutant_[ab]; do
     [ -f "$d/patch.diff" ] && [ -f "$d/README.md" ] && ls "$d"/zz_demo_*_test.go >/dev/null 2>&1 || continue
-    name=$(basename $(dirname $d))_$(basename $d | sed 's/mutant_//')
+    pid=$(basename $(dirname $d))
+    name=${pid}_$(basename $d | sed 's/mutant_//')
     [ -f /tmp/evalout/$name/result.json ] && continue
-    /verif/tools/evalmut.sh "$d" "$name" > /tmp/evalout/$name.log 2>&1
+    set=$(echo "$(related $pid) $CHEAP" | tr ' ' '\n' | awk '!s[$0]++' | tr '\n' ' ')
+    /verif/tools/evalmut.sh "$d" "$name" $set > /tmp/evalout/$name.log 2>&1
     did=1
+    [ -f /tmp/evalout/STOP ] && break
   done
   [ $did -eq 0 ] && sleep 30
 done
